@@ -16,7 +16,6 @@ import (
 	"strings"
 	"time"
 
-	v1 "github.com/fatedier/frp/pkg/config/v1"
 	"verifharness/hx"
 )
 
@@ -37,9 +36,7 @@ func runNullCrash(cfg *runCfg) error {
 	st.mu.Lock()
 	st.onlyOp = op
 	st.mu.Unlock()
-	srv, err := hx.StartServer("127.0.15.2", func(c *v1.ServerConfig) {
-		c.HTTPPlugins = []v1.HTTPPluginOptions{{Name: "p1", Addr: "http://" + st.addr, Path: "/handler", Ops: []string{op}}}
-	})
+	srv, err := startFromConfigFile("127.0.15.2", []cfgEntry{{name: "p1", addr: "http://" + st.addr, ops: []string{op}}}, false, false)
 	if err != nil {
 		return err
 	}
